@@ -37,6 +37,7 @@ def run(ctx: Ctx) -> None:
     _memo.rule_isinstance_on_class(ctx, ['graphiq/backends/density_matrix/functions.py', 'graphiq/metrics.py', 'graphiq/backends/density_matrix/state.py'])
     _memo.rule_zip_truncation(ctx, ['graphiq/backends/density_matrix/functions.py', 'graphiq/metrics.py', 'graphiq/backends/density_matrix/state.py'])
     _memo.rule_search_fallthrough(ctx, ['graphiq/backends/density_matrix/functions.py', 'graphiq/metrics.py', 'graphiq/backends/density_matrix/state.py'])
+    _memo.rule_zip_pairing(ctx, ['graphiq/backends/density_matrix/functions.py', 'graphiq/metrics.py', 'graphiq/backends/density_matrix/state.py'])
     numeric.rule_adjoint(ctx, [DMF, DMS])
     numeric.rule_einsum_trace(ctx)
     numeric.rule_raise_warning(ctx, [(DMF, "fidelity"), (DMF, "trace_distance"), (DMF, "partial_trace"),
